@@ -221,6 +221,19 @@ def directed_cases(rng, proj, kinds):
         for cond in (call, QG.mk("and", cmp("x", k, op="!=", lit="chk(x)"), call), QG.mk("or", cmp("x", k, op="==", lit="\"chk(x)\""), call),
                      QG.mk("and", cmp("x", k, op="!=", lit="tail\\"), call)):
             yield make_query([(k, "x")], cond, "x", preds=[pr])
+    # a literal that contains a connective (&&, ||) and equals the text of an entity: the comparison means the same in
+    # the WHERE text and in a predicate body (Gate.java has such values)
+    vk = "variable_declaration"
+    conn = [v for v in (proj.values.get((vk, "getVariableValue")) or []) if ("&&" in v or "||" in v) and "\n" not in v]
+    if vk in kinds and conn and len(proj.by_kind.get(vk, [])) <= 400:
+        def vcmp(alias, lit, op):
+            return ("atom", (QG.ident(alias), QG.sym("."), QG.ident("getVariableValue"), QG.sym("("), QG.sym(")"), QG.sym(op), QG.strlit(QG.esc_lit(lit))))
+        for lit in conn[:5]:
+            for op in ("==", "!="):
+                pr = QG.Pred("lit", [(vk, "n")], vcmp("n", lit, op))
+                call = ("call", "lit", ("x",))
+                for cond in (call, vcmp("x", lit, op), QG.mk("and", call, vcmp("x", lit, op)), QG.mk("or", QG.mk("not", call), vcmp("x", lit, op))):
+                    yield make_query([(vk, "x")], cond, "x", preds=[pr])
 
 
 def sweep(run, pid):
